@@ -173,22 +173,81 @@ package sfnt
 //@   loop 1
 //@     invariant fresh(widths) && len(widths) == len(outlines.Glyphs)
 
-// MakeGlyphNames: the returned list is freshly allocated and nothing that
-// existed before the call is written (frame-only contract: the absence of
-// panics depends on the validity of the font and is not claimed here).
-//@ func (f *Font) MakeGlyphNames() (names []string)   props: C16
+// MakeGlyphNames (C20): exactly one non-empty name per glyph, pairwise
+// distinct, glyph 0 named ".notdef", every existing unique name kept.
+// orig(f, i) is the name glyph i has before the call (".notdef" for glyph 0).
+// Run-time safety is NOT claimed here (opt only=frame: glyph IDs taken from
+// the cmap and GSUB tables are not validated against the glyph count by this
+// function); termination of the unbounded name searches is not claimed.
+//@ spec orig(f *Font, i int) string = ite(i == 0, ".notdef", ite(is(f.Outlines, *glyf.Outlines), ite(len(f.Outlines.(*glyf.Outlines).Names) == len(f.Outlines.(*glyf.Outlines).Glyphs), f.Outlines.(*glyf.Outlines).Names[i], ""), ite(f.Outlines.(*cff.Outlines).Glyphs[i] == nil, "", f.Outlines.(*cff.Outlines).Glyphs[i].Name)))
+// usedOK: every non-empty name of the list is marked as used
+//@ pred usedOK(g []string, used map[string]bool) = forall i int :: 0 <= i && i < len(g) && g[i] != "" ==> used[g[i]]
+// dist0: the names of two (arbitrary, fixed) glyphs a0 < b0 differ unless one is still empty
+//@ pred dist0(g []string, a0 int, b0 int) = 0 <= a0 && a0 < b0 && b0 < len(g) && g[a0] != "" && g[b0] != "" ==> g[a0] != g[b0]
+// kept0: the (arbitrary, fixed) glyph i0 keeps its original name if that name is non-empty and occurs only once
+//@ pred kept0(f *Font, g []string, i0 int) = 0 <= i0 && i0 < len(g) && orig(f, i0) != "" && (forall j int :: 0 <= j && j < len(g) && j != i0 ==> orig(f, j) != orig(f, i0)) ==> g[i0] == orig(f, i0)
+//@ func (f *Font) MakeGlyphNames() (names []string)   props: C20 C16
+//@   any i0 int, a0 int, b0 int   // arbitrary glyph indices: the clauses over them hold for all glyphs
 //@   opt only=frame
-//@   requires f != nil && f.Outlines != nil
-//@   ensures fresh(names)
+//@   requires fontOK(f) && nglyphs(f) >= 1
+//@   ensures fresh(names) && len(names) == nglyphs(f)
+//@   ensures names[0] == ".notdef"
+//@   ensures forall i int :: 0 <= i && i < len(names) ==> names[i] != ""
+//@   ensures 0 <= a0 && a0 < b0 && b0 < len(names) ==> names[a0] != names[b0]
+//@   ensures kept0(f, names, i0)
 //@   modifies nothing
+//@   loop 0
+//@     invariant fresh(glyphNames) && len(glyphNames) == len(f.Glyphs)
+//@     invariant forall i int :: 0 <= i && i < iter ==> glyphNames[i] == ite(f.Glyphs[i] == nil, "", f.Glyphs[i].Name)
+//@     invariant forall i int :: iter <= i && i < len(glyphNames) ==> glyphNames[i] == ""
+//@   loop 1
+//@     invariant fresh(glyphNames) && len(glyphNames) == nglyphs(f) && used != nil && fresh(used)
+//@     invariant forall i int :: 0 <= i && i < iter && glyphNames[i] != "" ==> used[glyphNames[i]]
+//@     invariant a0 < b0 && b0 < iter && 0 <= a0 && glyphNames[a0] != "" && glyphNames[b0] != "" ==> glyphNames[a0] != glyphNames[b0]
+//@     invariant forall i int :: iter <= i && i < len(glyphNames) ==> glyphNames[i] == orig(f, i)
+//@     invariant forall i int :: 0 <= i && i < iter ==> glyphNames[i] == orig(f, i) || glyphNames[i] == ""
+//@     invariant forall s string :: used[s] ==> exists j int :: hint(j, iter - 1) && 0 <= j && j < iter && orig(f, j) == s
+//@     invariant 0 <= i0 && i0 < iter && (forall j int :: 0 <= j && j < len(glyphNames) && j != i0 ==> orig(f, j) != orig(f, i0)) ==> glyphNames[i0] == orig(f, i0)
+//@     invariant iter >= 1 ==> glyphNames[0] == ".notdef"
+//@   loop 2
+//@     invariant fresh(glyphNames) && len(glyphNames) == nglyphs(f) && used != nil && fresh(used) && usedOK(glyphNames, used) && dist0(glyphNames, a0, b0) && kept0(f, glyphNames, i0) && glyphNames[0] == ".notdef"
+//@     invariant forall i int :: 0 <= i && i < iter ==> glyphNames[i] != ""
+//@   loop 3
+//@     invariant fresh(glyphNames) && len(glyphNames) == nglyphs(f) && used != nil && fresh(used) && usedOK(glyphNames, used) && dist0(glyphNames, a0, b0) && kept0(f, glyphNames, i0) && glyphNames[0] == ".notdef"
+//@     decreases *
+//@   loop 4
+//@     invariant fresh(glyphNames) && len(glyphNames) == nglyphs(f) && used != nil && fresh(used) && usedOK(glyphNames, used) && dist0(glyphNames, a0, b0) && kept0(f, glyphNames, i0) && glyphNames[0] == ".notdef"
+//@     decreases *
+//@   loop 5
+//@     invariant fresh(glyphNames) && len(glyphNames) == nglyphs(f) && used != nil && fresh(used) && usedOK(glyphNames, used) && dist0(glyphNames, a0, b0) && kept0(f, glyphNames, i0) && glyphNames[0] == ".notdef"
+//@     decreases *
+//@   loop 6
+//@     invariant fresh(glyphNames) && len(glyphNames) == nglyphs(f) && used != nil && fresh(used) && usedOK(glyphNames, used) && dist0(glyphNames, a0, b0) && kept0(f, glyphNames, i0) && glyphNames[0] == ".notdef"
+//@     decreases *
+//@   loop 7
+//@     invariant fresh(glyphNames) && len(glyphNames) == nglyphs(f) && used != nil && fresh(used) && usedOK(glyphNames, used) && dist0(glyphNames, a0, b0) && kept0(f, glyphNames, i0) && glyphNames[0] == ".notdef"
+//@     decreases *
+//@   loop 8
+//@     invariant fresh(glyphNames) && len(glyphNames) == nglyphs(f) && used != nil && fresh(used) && usedOK(glyphNames, used) && dist0(glyphNames, a0, b0) && kept0(f, glyphNames, i0) && glyphNames[0] == ".notdef"
+//@     decreases *
+//@   loop 9
+//@     invariant fresh(glyphNames) && len(glyphNames) == nglyphs(f) && used != nil && fresh(used) && usedOK(glyphNames, used) && dist0(glyphNames, a0, b0) && kept0(f, glyphNames, i0) && glyphNames[0] == ".notdef"
+//@     decreases *
 //@   loop 10
-//@     invariant isnil(nn) || fresh(nn)
+//@     invariant (isnil(nn) || (fresh(nn) && ref(nn) != ref(glyphNames))) && fresh(glyphNames) && len(glyphNames) == nglyphs(f) && used != nil && fresh(used) && usedOK(glyphNames, used) && dist0(glyphNames, a0, b0) && kept0(f, glyphNames, i0) && glyphNames[0] == ".notdef"
 //@     decreases *
 //@   loop 11
-//@     invariant isnil(nn) || fresh(nn)
+//@     invariant (isnil(nn) || (fresh(nn) && ref(nn) != ref(glyphNames))) && fresh(glyphNames) && len(glyphNames) == nglyphs(f) && used != nil && fresh(used) && usedOK(glyphNames, used) && dist0(glyphNames, a0, b0) && kept0(f, glyphNames, i0) && glyphNames[0] == ".notdef"
 //@     decreases *
 //@   loop 12
-//@     invariant isnil(nn) || fresh(nn)
+//@     invariant (isnil(nn) || (fresh(nn) && ref(nn) != ref(glyphNames))) && fresh(glyphNames) && len(glyphNames) == nglyphs(f) && used != nil && fresh(used) && usedOK(glyphNames, used) && dist0(glyphNames, a0, b0) && kept0(f, glyphNames, i0) && glyphNames[0] == ".notdef"
+//@     decreases *
+//@   loop 13
+//@     invariant fresh(glyphNames) && len(glyphNames) == nglyphs(f) && used != nil && fresh(used) && usedOK(glyphNames, used) && dist0(glyphNames, a0, b0) && kept0(f, glyphNames, i0) && glyphNames[0] == ".notdef"
+//@     invariant forall i int :: 0 <= i && i < iter ==> glyphNames[i] != ""
+//@   loop 14
+//@     invariant fresh(glyphNames) && len(glyphNames) == nglyphs(f) && used != nil && fresh(used) && usedOK(glyphNames, used) && dist0(glyphNames, a0, b0) && kept0(f, glyphNames, i0) && glyphNames[0] == ".notdef" && 0 <= i && i < len(glyphNames) && glyphNames[i] == ""
+//@     invariant forall i2 int :: 0 <= i2 && i2 < i ==> glyphNames[i2] != ""
 //@     decreases *
 
 // ---- Font.Subset: every character map of the font survives subsetting ----
